@@ -7,9 +7,9 @@ package grid
 // answers 404/500, or hides Content-Length.
 
 import (
-	"encoding/binary"
 	"bytes"
 	"context"
+	"encoding/binary"
 	"fmt"
 	"net"
 	"net/http"
@@ -206,7 +206,7 @@ type chainObj struct {
 func TestC12Chain(t *testing.T) {
 	mode := vlib.Param("MODE", "zstd")
 	via := vlib.Param("VIA", "http")
-	rep := vlib.NewReport("C12", fmt.Sprintf("E3-chain:%s/%s", via, mode))
+	rep := vlib.NewReport(vlib.Param("PROPERTY", "C12"), fmt.Sprintf("E3-chain:%s/%s", via, mode))
 	defer rep.Write()
 	sl := vlib.SilentLogger()
 
@@ -307,6 +307,27 @@ func TestC12Chain(t *testing.T) {
 				rep.Nontrivial(id + fmt.Sprint(known))
 			}
 		}
+		// existence through the real backend client: the same hash with another size is a
+		// different digest (C10). Over HTTP in compressed mode the backend cannot tell the
+		// logical size (it reports "unknown"), so only the modes that can are required to.
+		if o.kind == cache.CAS && (via == "grpc" || mode == "uncompressed") {
+			rep.Eval()
+			fresh := newFx(fxOpts{mode: mode, validateAC: false, proxy: mkProxy()})
+			n := int64(len(o.data))
+			ctx, cancel := ctxT()
+			resp, err := fresh.cas.FindMissingBlobs(ctx, &pb.FindMissingBlobsRequest{BlobDigests: []*pb.Digest{{Hash: o.hash, SizeBytes: n}, {Hash: o.hash, SizeBytes: n + 1}, {Hash: o.hash, SizeBytes: n - 1}}})
+			cancel()
+			var miss []int64
+			for _, d := range resp.GetMissingBlobDigests() {
+				miss = append(miss, d.SizeBytes)
+			}
+			if err != nil || len(miss) != 2 || miss[0] != n+1 || miss[1] != n-1 {
+				rep.Violate(fmt.Sprintf("C12 chain via=%s FindMissingBlobs through the backend ignores the size", via), fmt.Sprintf("%s: backend holds %s/%d; asked for sizes %d, %d, %d; reported missing: %v (err %v)", id, short(o.hash), n, n, n+1, n-1, miss, err), nil)
+			} else {
+				rep.Nontrivial(id + "findmissing-sizes")
+			}
+			fresh.close()
+		}
 		peer.settle()
 		for _, p := range peer.invariants() {
 			rep.Violate("C12 chain peer inconsistent "+genericKey(p), id+": "+p, nil)
@@ -314,6 +335,39 @@ func TestC12Chain(t *testing.T) {
 		peer.close()
 	}
 	a.close()
+
+	// ---- a backend configured not to upload (num_uploaders = 0, documented: "proxy backends
+	// won't upload blobs"): accepted local uploads must still release their files ----
+	{
+		var ro cache.Proxy
+		if via == "http" {
+			u, _ := url.Parse(bsrv.URL)
+			ro, _ = httpproxy.New(u, mode, &http.Client{Timeout: 30 * time.Second}, sl, sl, 0, 64)
+		} else {
+			conn, _ := grpc.NewClient("passthrough://bufnet", grpc.WithTransportCredentials(insecure.NewCredentials()),
+				grpc.WithContextDialer(func(context.Context, string) (net.Conn, error) { return back.lis.Dial() }))
+			ro = grpcproxy.New(grpcproxy.NewGrpcClients(conn), mode, sl, sl, 0, 64)
+		}
+		if ro != nil {
+			rofx := newFx(fxOpts{mode: mode, validateAC: false, proxy: ro})
+			base, _ := fdsInto(rofx.dir)
+			for i := 0; i < 20; i++ {
+				rep.Eval()
+				d := vlib.Bytes(fmt.Sprintf("c12chain/readonly/%s/%s/%d", via, mode, i), 3000+i, false)
+				if err := rofx.cache.Put(context.Background(), cache.CAS, vlib.Sha(d), int64(len(d)), bytes.NewReader(d)); err != nil {
+					rep.Violate("C12 chain upload failed with a non-uploading backend", fmt.Sprintf("via=%s mode=%s: %v", via, mode, err), nil)
+				}
+			}
+			rofx.settle()
+			if ok := waitFor(func() bool { k, _ := fdsInto(rofx.dir); return k <= base }); !ok {
+				k, first := fdsInto(rofx.dir)
+				rep.Violate(fmt.Sprintf("C12 chain via=%s files left open with num_uploaders=0", via), fmt.Sprintf("via=%s mode=%s: after 20 accepted uploads %d descriptors into the cache directory are still open (before: %d), e.g. %s", via, mode, k, base, first), nil)
+			} else {
+				rep.Nontrivial(fmt.Sprintf("readonly %s %s", via, mode))
+			}
+			rofx.close()
+		}
+	}
 
 	// ---- absent entries: miss, no panic ----
 	c := newFx(fxOpts{mode: mode, validateAC: false, proxy: mkProxy()})
